@@ -56,7 +56,8 @@ def build_pop(spec, dt, share=None):
     import numpy as np
     from pyrates import CircuitTemplate, NodeTemplate, OperatorTemplate
     from pyrates.frontend.template.population import PopulationTemplate, Connectivity
-    op = OperatorTemplate(name='lin', equations=["x' = -a*x + u"], variables={'x': 'output(0.0)', 'a': 1.0, 'u': 'input(0.0)'})
+    # (g is a constant that no population parametrises: it keeps the operator's value 1.0 for every unit)
+    op = OperatorTemplate(name='lin', equations=["x' = -a*x + g*u"], variables={'x': 'output(0.0)', 'a': 1.0, 'g': 1.0, 'u': 'input(0.0)'})
     nd = NodeTemplate(name='n', operators=[op])
     pops = {k: PopulationTemplate(name=k, node=nd, n=p['n'], params={'lin/a': list(p['a']), 'lin/x': list(p['x0'])})
             for k, p in spec['pops'].items()}
@@ -335,6 +336,14 @@ class C09(Check):
                     # operator / node templates), compiled first
                     cp = build_pop(spec, dt, share=shared_objs) if pop else models.build(spec, pool=shared_objs)
                     bump('prelude_same_object')
+                    if pop:
+                        # the OTHER circuit gets an override on a population variable (whatever that does there, the circuit
+                        # under test merely shares the population objects and keeps its own values)
+                        try:
+                            cp.update_var(node_vars={f"{next(iter(spec['pops']))}/lin/g": 5.0})
+                            bump('override_on_shared_population')
+                        except Exception:
+                            pass
                 else:
                     cp = build_pop(spec, dt_pre) if pop else models.build(copy.deepcopy(spec), fname='m_prelude')
                 pf, pargs, _, _ = cp.get_run_func('pre', dt_pre, vectorize=cfg['vectorize'], float_precision='float64',
